@@ -8,4 +8,7 @@ def run(tier):
         "element sequences (ints, bools, mixed) x source (array-derived, user-written logging closure) x pipelines of "
         "<= 2 lazy stages (@ f, ? p, ? T) x consumer ($] \\\\ $init $+ $* $& $| $&& $|| for, manual calls past "
         "exhaustion); compared: result and the log of pulls and callback applications",
-        ["the value carried by an exhausted iterator is unspecified (docs/iterators.md) and not compared"], gen=3000)
+        ["the value carried by an exhausted iterator is unspecified (docs/iterators.md) and not compared"], gen=3000,
+        # every consumer (incl. `for') runs the iterator in the iterator's own scope: the `noisy-*' and `rec-iter-*'
+        # cases of the scope suite (an iterator body that declares the consumer's names; a recursive named iterator)
+        claim=(("c06", ("noisy-", "rec-iter")),))
